@@ -228,3 +228,32 @@ impl<'a> Src for VecSrc<'a> {
         w
     }
 }
+
+/// equality of two DecodeErrors without comparing the formatted `actual` string of
+/// ConstraintValueError (String == is a memcmp loop under CBMC)
+pub fn derr_eq(a: &pdl_runtime::DecodeError, b: &pdl_runtime::DecodeError) -> bool {
+    use pdl_runtime::DecodeError::*;
+    match (a, b) {
+        (UnwrapError, UnwrapError) => true,
+        (FixedValueError { expected: e1, actual: a1 }, FixedValueError { expected: e2, actual: a2 }) => e1 == e2 && a1 == a2,
+        (LengthError { wanted: w1, got: g1, .. }, LengthError { wanted: w2, got: g2, .. }) => w1 == w2 && g1 == g2,
+        (ArraySizeError { array: x1, element: y1 }, ArraySizeError { array: x2, element: y2 }) => x1 == x2 && y1 == y2,
+        (EnumValueError { value: v1, .. }, EnumValueError { value: v2, .. }) => v1 == v2,
+        (ConstraintValueError { .. }, ConstraintValueError { .. }) => true,
+        (TrailingBytesError, TrailingBytesError) => true,
+        (TrailingBytesInArray { .. }, TrailingBytesInArray { .. }) => true,
+        _ => false,
+    }
+}
+
+pub fn eerr_eq(a: &pdl_runtime::EncodeError, b: &pdl_runtime::EncodeError) -> bool {
+    use pdl_runtime::EncodeError::*;
+    match (a, b) {
+        (SizeOverflow { size: s1, maximum_size: m1, .. }, SizeOverflow { size: s2, maximum_size: m2, .. }) => s1 == s2 && m1 == m2,
+        (CountOverflow { count: s1, maximum_count: m1, .. }, CountOverflow { count: s2, maximum_count: m2, .. }) => s1 == s2 && m1 == m2,
+        (InvalidScalarValue { value: s1, maximum_value: m1, .. }, InvalidScalarValue { value: s2, maximum_value: m2, .. }) => s1 == s2 && m1 == m2,
+        (InvalidArrayElementSize { size: s1, expected_size: m1, element_index: i1, .. }, InvalidArrayElementSize { size: s2, expected_size: m2, element_index: i2, .. }) => s1 == s2 && m1 == m2 && i1 == i2,
+        (InconsistentConditionValue { .. }, InconsistentConditionValue { .. }) => true,
+        _ => false,
+    }
+}
